@@ -371,7 +371,7 @@ class TemplateData(object):
             self.add_value_node()
 
         else:  # TODO: 241, 242, 243
-            raise NotImplementedError('Operator Descriptor {} not implemented'.format(descriptor))
+            raise PyBufrKitError('Operator Descriptor {} not implemented'.format(descriptor))
 
     def wire_skippable_local_descriptor(self):
         self.add_value_node()
